@@ -123,7 +123,17 @@ ChainDescs == Flatten2([b \in DOMAIN ChainBases |->
                 IN SelectSeq([j \in DOMAIN ks |-> <<"chain", ChainBases[b], [i \in 1..ChainLen |-> StepKinds[ks[j][i]]]>>],
                              LAMBDA e : ChainCode(e[3], 1, 1, e[2], <<>>) # <<>>)])
 
-All == ChainDescs \o SliceDescs \o PatchDescs \o ConcatDescs \o ReshapeDescs \o DimDescs \o BcastDescs \o CtorDescs \o RoundDescs
+(* ---- one index OBJECT used for several calls: a caller that keeps its index in a variable.  The harness passes  *)
+(* the same slice object whenever the same index is needed, so these cases apply one index, with a whole-dimension *)
+(* range and as many entries as the rank, to tensors of different extents along that dimension.                    *)
+SameIdxDescs == Flatten2([i \in DOMAIN GridSeq |->
+                  LET g == GridSeq[i] r == Len(g) IN
+                  IF r = 0 \/ r > 3 THEN <<>>
+                  ELSE << <<"sameidx", g, SetDim(g, 1, g[1] + 2), [k \in 1..r |-> IF k = 1 THEN <<0, 0>> ELSE <<0, 1>>]>>,
+                          <<"sameidx", SetDim(g, r, g[r] + 1), g, [k \in 1..r |-> IF k = r THEN <<0, 0>> ELSE <<g[k] - 1, g[k]>>]>>,
+                          <<"sameidx-patch", SetDim(g, 1, g[1] + 1), g, [k \in 1..r |-> <<0, 0>>]>> >>])
+
+All == ChainDescs \o SameIdxDescs \o SliceDescs \o PatchDescs \o ConcatDescs \o ReshapeDescs \o DimDescs \o BcastDescs \o CtorDescs \o RoundDescs
 Descs == MyCases(All)
 
 I1(d) == <<In("a", d, FALSE)>>
@@ -146,6 +156,12 @@ Build(d) ==
                                <<Ins("full", [shape |-> d[2], k |-> Q(-7, 2)], <<>>), Ins("zeros", [shape |-> d[2]], <<>>), Ins("ones", [shape |-> d[2]], <<>>)>>,
                                <<1, 2, 3>>, 0, TRUE)
     [] d[1] = "eye" -> MkCase("c06", "eye", <<>>, <<>>, <<Ins("eye", [dim |-> d[3]], <<>>)>>, <<1>>, 0, TRUE)
+    [] d[1] = "sameidx" -> MkCase("c06", "same-index-object", <<In("a", d[2], FALSE), In("b", d[3], FALSE)>>, <<"iota", "neg">>,
+                                  <<Ins("slice", [index |-> d[4]], <<1>>), Ins("slice", [index |-> d[4]], <<2>>), Ins("slice", [index |-> d[4]], <<1>>)>>,
+                                  <<3, 4, 5>>, 0, TRUE)
+    [] d[1] = "sameidx-patch" -> MkCase("c06", "same-index-object", <<In("a", d[2], FALSE), In("p", d[3], FALSE)>>, <<"iota", "neg">>,
+                                  <<Ins("patch", [index |-> d[4]], <<1, 2>>), Ins("slice", [index |-> d[4]], <<3>>), Ins("slice", [index |-> d[4]], <<2>>)>>,
+                                  <<3, 4, 5>>, 0, TRUE)
     [] d[1] = "rt-patch" ->
          (* write s into t at the last position it fits, then slice the covered ranges: must be s again *)
          LET g == d[2]
